@@ -125,6 +125,7 @@ func crashAlphabet(single bool) []crashOp {
 		{kind: "put", b: "aaa", k: "k", body: "BBB"},
 		{kind: "put", b: "aaa", k: "k", body: "Z"}, // same size as "A"
 		{kind: "putbig", b: "aaa", k: "k", body: big3},
+		{kind: "putmeta", b: "aaa", k: "k", body: "M"}, // 9 KiB of user metadata: the record spans three storage blocks
 		{kind: "put", b: "aaa", k: "d/x", body: "C"},
 		{kind: "putbig", b: "aaa", k: "k", body: big1},
 		{kind: "putbig", b: "aaa", k: "k", body: big2},
@@ -144,8 +145,11 @@ func crashApply(w *drv.World, m *model.Store, o crashOp) (drv.Resp, model.Exp) {
 		return w.Do(drv.Req{Method: "PUT", Path: "/" + o.b}), m.CreateBucket(o.b)
 	case "delbucket":
 		return w.Do(drv.Req{Method: "DELETE", Path: "/" + o.b}), m.DeleteBucket(o.b)
-	case "put", "putbig":
+	case "put", "putbig", "putmeta":
 		meta := map[string]string{"x-amz-meta-a": "m" + strconv.Itoa(len(o.body)) + o.body[:1]}
+		if o.kind == "putmeta" {
+			meta["x-amz-meta-a"] = strings.Repeat("v", 9000)
+		}
 		return w.Do(drv.Req{Method: "PUT", Path: "/" + o.b + "/" + o.k, Body: []byte(o.body), Header: drv.H("x-amz-meta-a", meta["x-amz-meta-a"])}), m.Put(o.b, o.k, []byte(o.body), meta)
 	case "delete":
 		return w.Do(drv.Req{Method: "DELETE", Path: "/" + o.b + "/" + o.k}), m.Delete(o.b, o.k)
@@ -299,7 +303,7 @@ type crashJobResult struct {
 
 func touched(o crashOp) []string {
 	switch o.kind {
-	case "put", "putbig", "delete":
+	case "put", "putbig", "putmeta", "delete":
 		return []string{"object:" + o.b + "/" + o.k, "key-set:" + o.b}
 	case "copy":
 		return []string{"object:" + o.b2 + "/" + o.k2, "key-set:" + o.b2}
@@ -411,6 +415,7 @@ func c15RunHistory(kind drv.Kind, alpha []crashOp, hist []int, res *crashJobResu
 		cfg.FsWrap = rec.Wrap
 		cfg.MetaFsWrap = rec.Wrap
 	}
+	cfg.MetaLimit = 20000 // room for the large metadata record of "putmeta"
 	w, err := drv.NewWorld(cfg)
 	if err != nil {
 		engine.HarnessError("C15 world: %v", err)
@@ -482,7 +487,7 @@ func c15RunHistory(kind drv.Kind, alpha []crashOp, hist []int, res *crashJobResu
 			inflight = op.kind
 		}
 		base := &engine.Violation{World: string(kind), History: append(append([]string{}, hs...), fmt.Sprintf("crash during op #%d (%s) before %q", lbl, inflight, reason))}
-		rw, err := drv.NewWorld(drv.Config{Kind: kind, ReuseDir: imgDir})
+		rw, err := drv.NewWorld(drv.Config{Kind: kind, ReuseDir: imgDir, MetaLimit: 20000})
 		if err != nil {
 			v := *base
 			v.Sig, v.Msg = sig("C15", class, "crash", "in-flight="+inflight, "open-failed"), fmt.Sprintf("the store does not open after the crash: %v", err)
@@ -529,7 +534,7 @@ func c15RunHistory(kind drv.Kind, alpha []crashOp, hist []int, res *crashJobResu
 				}
 			}
 			v.Sig = sig("C15", class, "crash", "in-flight="+inflight, what)
-			if what == "in-flight-op-partially-applied" && (op.kind == "put" || op.kind == "putbig" || op.kind == "copy") && lbl+1 < len(models) {
+			if what == "in-flight-op-partially-applied" && (op.kind == "put" || op.kind == "putbig" || op.kind == "putmeta" || op.kind == "copy") && lbl+1 < len(models) {
 				v.Sig = sig("C15", class, "crash", "in-flight="+inflight, what, tornDetail(rw, op, models[lbl], models[lbl+1]))
 			}
 			v.Msg = fmt.Sprintf("after a kill during %s the reopened store matches neither the state before the operation (%s) nor after it (%s)", inflight, dPre, dPost)
